@@ -38,7 +38,7 @@ BIG = 4096
 
 def _const_val(e, env):
     try:
-        return eval(compile(ast.Expression(e), "<c>", "eval"), {"__builtins__": {}}, dict(env))
+        return eval(compile(ast.fix_missing_locations(ast.Expression(e)), "<c>", "eval"), {"__builtins__": {}}, dict(env))
     except Exception:
         return None
 
@@ -220,40 +220,129 @@ def run(ctx):
             where(pm, pm.node), facts=["width=%s" % env.get("@return")])
     loops = [st for st in pm.body if isinstance(st, ast.For)]
     need(len(loops) == 1, "block loop not found in pure_murmur2")
-    kdef = [st for st in loops[0].body if isinstance(st, ast.Assign) and sum(
-        1 for x in ast.walk(st.value) if isinstance(x, ast.Subscript) and unparse(x.value) == pm.params[0]) >= 4]
-    place = set()
-    if kdef:
-        for x in ast.walk(kdef[0].value):
-            if isinstance(x, ast.Subscript) and unparse(x.value) == pm.params[0]:
-                off = _const_val(x.slice.right, {}) if isinstance(x.slice, ast.BinOp) and isinstance(x.slice.op, ast.Add) else 0
-                # find enclosing shift
+    B = pm.params[0]
+
+    def _byte_terms(e, env_):
+        """[(index base text, constant offset, left shift)] of the input bytes in `e`, locals replaced by their values"""
+        e = _subst(e, env_)
+        out = []
+        for x in ast.walk(e):
+            if isinstance(x, ast.Subscript) and unparse(x.value) == B:
+                idx = x.slice
+                base, off = norm(idx), 0
+                if isinstance(idx, ast.BinOp) and isinstance(idx.op, ast.Add):
+                    c_r, c_l = _const_val(idx.right, {}), _const_val(idx.left, {})
+                    if isinstance(c_r, int):
+                        base, off = norm(idx.left), c_r
+                    elif isinstance(c_l, int):
+                        base, off = norm(idx.right), c_l
                 sh = 0
-                for y in ast.walk(kdef[0].value):
+                for y in ast.walk(e):
                     if isinstance(y, ast.BinOp) and isinstance(y.op, ast.LShift) and any(z is x for z in ast.walk(y.left)):
-                        sh = _const_val(y.right, {})
-                place.add((off, sh))
-    r.check(place == {(0, 0), (1, 8), (2, 16), (3, 24)}, "%s#block-byte-placement" % PM, "block bytes are not placed little-endian at bit offsets 0/8/16/24: %s" % sorted(place),
+                        sh = _const_val(y.right, consts)
+                    elif isinstance(y, ast.BinOp) and isinstance(y.op, ast.Mult) and any(z is x for z in ast.walk(y.left)) and isinstance(
+                            _const_val(y.right, consts), int) and _const_val(y.right, consts) in (1 << 8, 1 << 16, 1 << 24):
+                        sh = _const_val(y.right, consts).bit_length() - 1
+                out.append((base, off, sh))
+        return out
+
+    def _subst(e, env_):
+        import copy as _copy
+
+        class S_(ast.NodeTransformer):
+            def visit_Name(self, n_):
+                return _copy.deepcopy(env_[n_.id]) if isinstance(n_.ctx, ast.Load) and n_.id in env_ else n_
+        return S_().visit(_copy.deepcopy(e))
+
+    # function-level names bound once to an expression over the arguments (`tail_start = length & ~3`)
+    stores = {}
+    for x in ast.walk(pm.node):
+        if isinstance(x, ast.Name) and isinstance(x.ctx, ast.Store):
+            stores[x.id] = stores.get(x.id, 0) + 1
+    fenv = {}
+    for st in pm.body:
+        if isinstance(st, ast.Assign) and len(st.targets) == 1 and isinstance(st.targets[0], ast.Name) and stores.get(st.targets[0].id) == 1 \
+                and not any(isinstance(y, ast.Call) and call_name(y) != "len" for y in ast.walk(st.value)):
+            fenv[st.targets[0].id] = _subst(st.value, fenv)
+    # the block word: the first value in the loop body that gathers four input bytes (through its temporaries)
+    lenv = dict(fenv)
+    place = []
+    for st in loops[0].body:
+        if isinstance(st, ast.Assign) and len(st.targets) == 1 and isinstance(st.targets[0], ast.Name):
+            terms = _byte_terms(st.value, lenv)
+            if len(terms) >= 4:
+                place = terms
+                break
+            lenv[st.targets[0].id] = _subst(st.value, lenv)
+    bases = {b for b, _, _ in place}
+    r.check(len(bases) == 1 and sorted((o, s_) for _, o, s_ in place) == [(0, 0), (1, 8), (2, 16), (3, 24)], "%s#block-byte-placement" % PM,
+            "block bytes are not placed little-endian at bit offsets 0/8/16/24 of one word: %s" % sorted(place),
             where(pm, loops[0]), "every key of length >= 4 hashes differently from Java")
-    ebv = [unparse(st.targets[0]) for st in pm.body if isinstance(st, ast.Assign) and isinstance(st.value, ast.BinOp) and isinstance(
-        st.value.op, ast.Mod) and _const_val(st.value.right, {}) == 4]
+    # the tail, by cases of the residue len % 4: which bytes are folded in, and the final multiply after them
+    ebv = [unparse(st.targets[0]) for st in pm.body if isinstance(st, ast.Assign) and isinstance(st.value, ast.BinOp) and (
+        (isinstance(st.value.op, ast.Mod) and _const_val(st.value.right, consts) == 4) or
+        (isinstance(st.value.op, ast.BitAnd) and _const_val(st.value.right, consts) == 3))]
     ebn = ebv[0] if ebv else "extra_bytes"
-    tail = [st for st in pm.body if isinstance(st, ast.If) and ebn in norm(st.test)]
-    tinfo = []
-    for st in tail:
-        off = sh = None
-        mult = any(isinstance(y, ast.AugAssign) and isinstance(y.op, ast.Mult) for y in st.body)
-        for x in ast.walk(st):
-            if isinstance(x, ast.Subscript) and unparse(x.value) == pm.params[0]:
-                off = _const_val(x.slice.right, {}) if isinstance(x.slice, ast.BinOp) and isinstance(x.slice.op, ast.Add) else 0
-                sh = 0
-                for y in ast.walk(st):
-                    if isinstance(y, ast.BinOp) and isinstance(y.op, ast.LShift) and any(z is x for z in ast.walk(y.left)):
-                        sh = _const_val(y.right, {})
-        tinfo.append((norm(st.test), off, sh, mult))
-    want = [("%s == 3" % ebn, 2, 16, False), ("%s >= 2" % ebn, 1, 8, False), ("%s >= 1" % ebn, 0, 0, True)]
-    r.check(tinfo == want, "%s#tail-fallthrough" % PM, "tail handling is not the 3->2->1 fall-through with the multiply in the last arm: %s" % tinfo,
-            where(pm, tail[0] if tail else pm.node), "keys whose length is not a multiple of 4 hash differently from Java")
+    cfm = ctx.cfg(pm)
+    hv = [unparse(st.target) for st in loops[0].body if isinstance(st, ast.AugAssign) and isinstance(st.op, ast.BitXor) and isinstance(st.value, ast.Name)]
+    hname = hv[0] if hv else "h"
+    loop_n = [n for n in cfm.nodes if n.kind == "for" and n.stmt is loops[0]]
+    need(loop_n, "block loop has no CFG node")
+    after = [t for t, lab in cfm.succ[loop_n[0].id] if lab == ("iter", False)]
+
+    def _residue_test(test, v):
+        def leaf(e):
+            if isinstance(e, ast.Compare) and len(e.ops) == 1:
+                l_, r_ = _const_val(_subst(e.left, {ebn: ast.Constant(value=v)}), consts), _const_val(_subst(e.comparators[0], {ebn: ast.Constant(value=v)}), consts)
+                if isinstance(l_, int) and isinstance(r_, int) and any(isinstance(z, ast.Name) and z.id == ebn for z in ast.walk(e)):
+                    import operator as _op
+                    fn_ = {ast.Eq: _op.eq, ast.NotEq: _op.ne, ast.Lt: _op.lt, ast.LtE: _op.le, ast.Gt: _op.gt, ast.GtE: _op.ge}.get(type(e.ops[0]))
+                    return None if fn_ is None else bool(fn_(l_, r_))
+            if isinstance(e, ast.Name) and e.id == ebn:
+                return bool(v)
+            return None
+        return tri_eval(test, leaf)
+
+    WANT = {0: ([], 0), 1: ([(0, 0)], 1), 2: ([(0, 0), (1, 8)], 1), 3: ([(0, 0), (1, 8), (2, 16)], 1)}
+    tinfo, tail_ok, tbases = {}, True, set()
+    for v in range(4):
+        x, events, undecided, guard_ = (after[0] if after else cfm.exit.id), [], None, 0
+        while x != cfm.exit.id and guard_ < 400:
+            guard_ += 1
+            n = cfm.nodes[x]
+            nxt = [(t, lab) for t, lab in cfm.succ[x] if lab != ("exc",)]
+            if n.kind == "test":
+                verdict = _residue_test(n.stmt.test, v)
+                if verdict is None:
+                    undecided = norm(n.stmt.test)
+                    break
+                nxt = [(t, lab) for t, lab in nxt if lab and lab[0] == "cond" and lab[2] == verdict]
+            elif n.kind == "stmt" and isinstance(n.stmt, ast.AugAssign) and unparse(n.stmt.target) == hname:
+                terms = _byte_terms(n.stmt.value, fenv)
+                if terms and isinstance(n.stmt.op, (ast.BitXor, ast.BitOr, ast.Add)):
+                    for b_, o_, s_ in terms:
+                        tbases.add(b_)
+                        events.append((o_, s_))
+                elif isinstance(n.stmt.op, ast.Mult):
+                    events.append("mult")
+                elif isinstance(n.stmt.op, ast.BitXor):
+                    shs = [_const_val(y.right, consts) for y in ast.walk(n.stmt.value) if isinstance(y, ast.BinOp) and isinstance(y.op, ast.RShift)]
+                    events.append(("shr", shs[0] if len(shs) == 1 else None))
+            if len(nxt) != 1:
+                break
+            x = nxt[0][0]
+        folded = [e for e in events if isinstance(e, tuple) and e[0] != "shr"]
+        rest = [e for e in events if not (isinstance(e, tuple) and e[0] != "shr")]
+        k_ = len(folded)
+        ordered = all(isinstance(e, tuple) and e[0] != "shr" for e in events[:k_])  # every byte is folded in before the first multiply
+        got_v = (sorted(folded), rest)
+        tinfo[v] = "undecided test `%s`" % undecided if undecided else got_v
+        if undecided or got_v != (WANT[v][0], ["mult"] * WANT[v][1] + [("shr", JAVA["shift1"]), "mult", ("shr", JAVA["shift2"])]) or not ordered:
+            tail_ok = False
+    r.check(tail_ok and len(tbases) == 1, "%s#tail-fallthrough" % PM,
+            "tail handling does not fold exactly the remaining 3/2/1 bytes (at 16/8/0), multiply once if there were any, and finish with "
+            ">>>13, multiply, >>>15; by residue: %s" % tinfo,
+            where(pm, pm.node), "keys whose length is not a multiple of 4 hash differently from Java")
     finals = [_const_val(e.right, consts) for e, w in W.shift_operands if e not in [x for x in ast.walk(loops[0])]]
     mul = [st.value.id for st in loops[0].body if isinstance(st, ast.AugAssign) and isinstance(st.op, ast.Mult) and isinstance(st.value, ast.Name)]
     shr = [x.right.id for st in loops[0].body for x in ast.walk(st) if isinstance(x, ast.BinOp) and isinstance(x.op, ast.RShift) and isinstance(x.right, ast.Name)]
